@@ -29,7 +29,7 @@ func (s *TxnScenario) Name() string { return s.ID }
 
 func (s *TxnScenario) Setup() {
 	s.W = NewWorld(s.NewBackend(), len(s.Progs))
-	s.H = &History{}
+	s.H = &History{W: s.W}
 	if s.SetupFn != nil {
 		s.SetupFn(s)
 	}
